@@ -39,6 +39,7 @@ def c05(tier, seed):
 
 
 ENGINES = {
+    "zc": ({"C19"}, "zeroize visit counting and constant-default reach, run time + const items"),
     "hex": ({"C14"}, "LowerHex/UpperHex vs per-byte reference; built with and without faster-hex"),
     "cmpfmt": ({"C13"}, "comparison / hashing / Debug vs slice; recording hasher; map lookups"),
     "order": ({"C08"}, "call-order recorders over generate/map/zip/fold/clone/default x receiver forms"),
@@ -259,7 +260,32 @@ def c14(tier, seed):
     ]
 
 
+def c19(tier, seed):
+    if tier == "quick":
+        return [Run("zc", "debug", [], shards=4), Run("zc", "miri", ["--maxn", "17"], shards=16, label="zc/miri(N<=17)")]
+    return [Run("zc", "debug", [], shards=8), Run("zc", "release", [], shards=8),
+            Run("zc", "miri", ["--maxn", "64"], shards=32, label="zc/miri(N<=64)")]
+
+
 SPECS = {
+    "C19": dict(
+        engine="zc",
+        technique="per-address visit counter inside the element's Zeroize impl + value read-back; constant default compared element-wise at run time AND for const items evaluated by the compiler; Miri for structurally built arrays",
+        level="exploration",
+        level_text=("Every N in 0..=64 plus 100, 127, 128, 255, 256, 1000, 1023, 1024 (every even/odd storage shape to depth 10), seeded random prior "
+                    "contents, element types u8, u64, [u8;3], NonZeroU32 (zeroizes to 1), nested arrays and a Mark type whose zeroized value, "
+                    "constant default and all-zero bytes are pairwise different: after zeroize() every element must equal its zeroized value and "
+                    "Mark's Zeroize must have been invoked exactly once at each of the N slot addresses and nowhere else; const_default(), "
+                    "ConstDefault::DEFAULT and a const item initialised with it (evaluated by the compiler) must be N copies of T::DEFAULT and "
+                    "equal Default::default()."),
+        level_note="Trusted: the visit counter in Mark::zeroize; rustc's const evaluator for the const items.",
+        runs=c19,
+        min_cases=700,
+        exhaustive={"quick": True, "thorough": True},
+        rule="one case = (zeroize | const_default, element type, N); all listed N; non-trivial = N > 0",
+        explanation="value read-back + per-address visit counts; element-wise default comparison at run time and for compiler-evaluated const items",
+        assumptions=["N from the list above"],
+    ),
     "C14": dict(
         engine="hex",
         technique="reference-model monitor: per-byte {:02x}/{:02X} concatenation truncated to the precision, for every precision on small N and boundary/random precisions on large N, in two feature builds; ASan/memcheck on the SIMD build, Miri on the fallback",
